@@ -9,7 +9,7 @@ H18 = 64800 * NPS
 
 META = {
     "property": "C05",
-    "proof_modules": ["PyodaProofs.C05", "PyodaProofs.C05StartOfDay", "PyodaProofs.C04Spec", "PyodaProofs.C04Zone"],
+    "proof_modules": ["PyodaProofs.C05", "PyodaProofs.C05Resolvers", "PyodaProofs.C05StartOfDay", "PyodaProofs.C04Spec", "PyodaProofs.C04Zone"],
     "drivers": ["drv_zone"],
     "theorems": [
         "Pyoda.C05.containsLocal_iff", "Pyoda.C05.mapLocal_sound", "Pyoda.C05.mapLocal_complete",
@@ -17,13 +17,15 @@ META = {
         "Pyoda.C05.instant_roundtrip", "Pyoda.C05.strict_spec", "Pyoda.C05.lenient_spec", "Pyoda.C05.startOfDay_spec_partial", "Pyoda.C05.toy_spec", "Pyoda.C04.dataOK_gives_spec",
         "Pyoda.C04.zoneOK_gives_spec",
         "Pyoda.C05.mapLocal_intervals_valid", "Pyoda.C05.no_earlier_on_date", "Pyoda.C05.startOfDay_spec",
+        "Pyoda.C05.single_first_last_spec", "Pyoda.C05.first_last_are_results", "Pyoda.C05.gap_transition_valid",
+        "Pyoda.C05.resolveLocal_spec", "Pyoda.C05.strict_lenient_are_combinations",
     ],
     "trusted_base": [
         "theorems are over an abstract zone `get` satisfying Partition, Bounded (|wall| <= 18 h) and MinLen (finite intervals >= 36 h); C04 establishes these for the model of the bundled zones from evaluated decidable checks with soundness theorems: dataOK_gives_spec (zones without a recurring tail, check dataOK) and zoneOK_gives_spec (zones with a recurring tail, check zoneOK: stored periods, tail rules through year 9999, seam, 36 h minimum); both are evaluated by the compiled driver on every zone each run (counts in the evidence notes of C04)",
         "domain of the main theorems: local instants at least 18 h inside the ends of time; nearer the ends the model keeps the code's sentinel logic and is compared by correspondence only",
     ],
     "partial": ["intervals shorter than 36 h (none in the bundled data) and local instants within 18 h of the ends of time are covered by execution/correspondence, not by the theorems"],
-    "rule": "local instants: local start/end of both neighbours of sampled transitions + {-1s,-1ns,0,+1ns,+1s}, midnights around them, ends of time, seeded random, ISO and Julian/Hebrew calendars; distinct = distinct (zone, local instant); non-trivial = zone has a transition within 2 days of the local instant or the instant is random",
+    "rule": "ops zone.resolvers evaluate ZoneLocalMapping.single/first/last and all 3 x 4 combinations of the stock ambiguous/skipped-time resolvers through resolve_local; local instants: local start/end of both neighbours of sampled transitions + {-1s,-1ns,0,+1ns,+1s}, midnights around them, ends of time, seeded random, ISO and Julian/Hebrew calendars; distinct = distinct (zone, local instant); non-trivial = zone has a transition within 2 days of the local instant or the instant is random",
 }
 
 
@@ -67,10 +69,98 @@ def impl_factory(zmap):
                     return str(_inst_of(m.first()))
                 return f"{_inst_of(m.first())} {_inst_of(m.last())}"
             return f"{guard(insts)} | {guard(lambda: str(_inst_of(z.at_strictly(ldt))))} | {guard(lambda: str(_inst_of(z.at_leniently(ldt))))}"
+        if op == "zone.resolvers":
+            return resolvers_reply(z, ldt)
         if op == "zone.startofday":
             return str(_inst_of(z.at_start_of_day(ldt.date)))
         raise ValueError(op)
     return impl
+
+
+def _stock_resolvers():
+    R = Z.P().time_zones.Resolvers if hasattr(Z.P(), "time_zones") else None
+    if R is None:
+        from pyoda_time.time_zones import Resolvers as R  # noqa: N811
+    amb = [("earlier", R.return_earlier), ("later", R.return_later), ("throw", R.throw_when_ambiguous)]
+    skp = [("endOfBefore", R.return_end_of_interval_before), ("startOfAfter", R.return_start_of_interval_after),
+           ("forwardShifted", R.return_forward_shifted), ("throw", R.throw_when_skipped)]
+    return R, amb, skp
+
+
+def resolvers_reply(z, ldt):
+    """single | first | last | the 3 x 4 combinations of the stock resolvers through resolve_local, as instants"""
+    R, amb, skp = _stock_resolvers()
+    m = z.map_local(ldt)
+    sh = lambda fn: guard(lambda: str(_inst_of(fn())))  # noqa: E731
+    combos = [sh(lambda a=a, k=k: z.resolve_local(ldt, R.create_mapping_resolver(a, k))) for _, a in amb for _, k in skp]
+    return f"{sh(m.single)} | {sh(m.first)} | {sh(m.last)} | {' '.join(combos)}"
+
+
+def resolvers_oracle(z, l, ldt, exp):
+    """the property on the real code: what every stock resolver / single / first / last must return, from the
+    zone's own intervals (`exp` = instants rendering as the local value, earlier first)"""
+    R, amb, skp = _stock_resolvers()
+    m = z.map_local(ldt)
+
+    def outcome(fn):
+        try:
+            zdt = fn()
+        except Exception as e:  # noqa: BLE001
+            return ("err", exc_name(e), None)
+        return ("ok", _inst_of(zdt), zdt)
+
+    def want_ok(name, got, t):
+        if got[0] != "ok" or got[1] != t:
+            return {"key": "resolver-wrong-" + name, "what": f"{z.id} local {l}: {name} gave {got[:2]}, expected instant {t}"}
+        zdt = got[2]
+        off = z.get_utc_offset(zdt.to_instant()).seconds
+        if zdt.offset.seconds != off or zdt.zone is not z or zdt.calendar != ldt.calendar:
+            return {"key": "resolver-result-out-of-step", "what": f"{z.id} local {l}: {name} returned offset {zdt.offset.seconds} "
+                    f"(zone offset at its instant: {off}), zone/calendar kept: {zdt.zone is z}/{zdt.calendar == ldt.calendar}"}
+        return None
+
+    def want_err(name, got, err):
+        if got[:2] != ("err", err):
+            return {"key": "resolver-wrong-" + name, "what": f"{z.id} local {l}: {name} gave {got[:2]}, expected {err}"}
+        return None
+
+    n = len(exp)
+    if m.count != n:
+        return None  # reported by the maplocal oracle
+    checks = []
+    if n == 0:
+        tr = Z.inst_ns(m.early_interval._raw_end)
+        shifted = l - m.early_interval.wall_offset.seconds * NPS
+        for nm, fn in (("single", m.single), ("first", m.first), ("last", m.last)):
+            checks.append(want_err(nm, outcome(fn), "!skippedTime"))
+        for an, a in amb:
+            for kn, k in skp:
+                got = outcome(lambda a=a, k=k: z.resolve_local(ldt, R.create_mapping_resolver(a, k)))
+                nm = f"resolve({an},{kn})"
+                if kn == "throw":
+                    checks.append(want_err(nm, got, "!skippedTime"))
+                else:
+                    t = {"endOfBefore": tr - 1, "startOfAfter": tr, "forwardShifted": shifted}[kn]
+                    if MINI <= t <= MAXI:
+                        checks.append(want_ok(nm, got, t))
+    else:
+        checks.append(want_ok("first", outcome(m.first), exp[0]))
+        checks.append(want_ok("last", outcome(m.last), exp[-1]))
+        checks.append(want_ok("single", outcome(m.single), exp[0]) if n == 1 else want_err("single", outcome(m.single), "!ambiguousTime"))
+        for an, a in amb:
+            for kn, k in skp:
+                got = outcome(lambda a=a, k=k: z.resolve_local(ldt, R.create_mapping_resolver(a, k)))
+                nm = f"resolve({an},{kn})"
+                if n == 1:
+                    checks.append(want_ok(nm, got, exp[0]))
+                elif an == "throw":
+                    checks.append(want_err(nm, got, "!ambiguousTime"))
+                else:
+                    checks.append(want_ok(nm, got, exp[0] if an == "earlier" else exp[1]))
+    for c in checks:
+        if c:
+            return c
+    return None
 
 
 def neighbourhood(z, t0):
@@ -118,6 +208,10 @@ def oracle_factory(zmap):
         ldt = _ldt(l, cal)
         exp_all = expected_instants(z, l)
         exp = [x for x in exp_all if MINI <= x <= MAXI]
+        if op == "zone.resolvers":
+            if not (MINI + H18 <= l <= MAXI - H18):
+                return None
+            return resolvers_oracle(z, l, ldt, exp)
         if op in ("zone.maplocal", "zone.resolve"):
             m = z.map_local(ldt)
             if m.count not in (0, 1, 2):
@@ -282,6 +376,7 @@ def _explore(ctx, keys):
                     cal = 0  # non-ISO calendars cover a narrower range of days
                 ops.append(f"zone.maplocal {sid} {l} {cal}" if cal else f"zone.maplocal {sid} {l}")
                 ops.append(f"zone.resolve {sid} {l}")
+                ops.append(f"zone.resolvers {sid} {l} {cal}" if cal else f"zone.resolvers {sid} {l}")
         day = ((tr + w1 * NPS) // NPD) * NPD
         for d in (-1, 0, 1):
             cal = rng.choice([0, 0, 1, 2, 3]) if -600000 * NPD <= day <= 1500000 * NPD else 0
@@ -295,12 +390,15 @@ def _explore(ctx, keys):
         for l in [MINI, MINI + 1, MINI + H18, MINI + H18 - 1, MINI + NPD, MAXI, MAXI - H18, MAXI - H18 + 1, MAXI - NPD + 1, 0]:
             ops.append(f"zone.maplocal {sid} {l}")
             ops.append(f"zone.resolve {sid} {l}")
+            ops.append(f"zone.resolvers {sid} {l}")
         ops.append(f"zone.startofday {sid} {MINI}")
         ops.append(f"zone.startofday {sid} {(MAXI // NPD) * NPD}")
         for _ in range(ctx.scale(10, 200)):
             l = rng.randint(MINI + H18, MAXI - H18) if rng.random() < 0.5 else rng.randint(-3 * 10**18, 3 * 10**18)
             ops.append(f"zone.maplocal {sid} {l}")
             ops.append(f"zone.resolve {sid} {l}")
+            if rng.random() < 0.3:
+                ops.append(f"zone.resolvers {sid} {l}")
             rt_cases.append((sid, rng.randint(MINI, MAXI)))
     ctx.correspond("zone.maplocal+resolve", ops, impl_factory(zmap), oracle=oracle_factory(zmap),
                    nontrivial=lambda t, r: t[0] != "zone.def")
